@@ -221,7 +221,9 @@ def symlink_target(data):
         ident = data[i + 4:i + 4 + ln]
         i += 4 + ln
         if t in (1, 2):
+            # resolution starts again from the root, whatever came before (what Linux' UDF driver does)
             absolute = True
+            comps = []
         elif t == 3:
             comps.append('..')
         elif t == 4:
